@@ -550,6 +550,14 @@ Definition x_ltb (v w : value) : res bool :=
       end
   end.
 
+(* balance_t::abs() rebuilds the balance with += of each |amount|, and += ignores a real-zero
+   amount: zero entries disappear (Model/Amount.v's v_abs keeps them) *)
+Definition x_abs (v : value) : res value :=
+  match v with
+  | VBal b => Ok (VBal (filter (fun a => negb (is_realzero a)) (map amt_abs b)))
+  | _ => v_abs v
+  end.
+
 Definition arith (ord : bool) (cp : comm -> Z) (k : kind2) (v w : value) : res value :=
   match k with
   | KAdd => v_add ord v w
@@ -620,7 +628,7 @@ Fixpoint calc (n : nat) (tbl : symtab) (sc : frame) (o : op) {struct n} : res xv
                do v <- the_value xv;
                (match b with
                 | BToInt => do r <- to_int_value v; Ok (XV r)
-                | BAbs => do r <- v_abs v; Ok (XV r)
+                | BAbs => do r <- x_abs v; Ok (XV r)
                 end)
            | [] => Err EOther
            end
